@@ -137,6 +137,12 @@ def gen_function_vcs(lib, key):
         info['status'] = 'out-of-fragment'
         info['error'] = str(e)
         vcs = []
+    except engine.ContractError as e:
+        # the contract no longer fits the code (extra loop, renamed local used by an invariant, ...): the
+        # function's obligations cannot be generated -> undischarged (never silently skipped)
+        info['status'] = 'out-of-fragment'
+        info['error'] = 'contract does not fit the current source: %s' % e
+        vcs = []
     return vcs, info
 
 
